@@ -26,6 +26,7 @@ import (
 
 	"verif.local/sim/core"
 	"verif.local/sim/simrt"
+	"verif.local/sim/warm"
 	_ "verif.local/sim/props/c04"
 	_ "verif.local/sim/props/c12"
 	_ "verif.local/sim/props/c13"
@@ -73,6 +74,7 @@ func main() {
 		fmt.Fprintln(os.Stderr, "usage: sim run|plan|enum ...")
 		os.Exit(2)
 	}
+	warm.Gob()
 	simrt.SiteHits = make([]bool, len(verifsim.Sites))
 	if pf := os.Getenv("VERIF_CPUPROFILE"); pf != "" {
 		f, err := os.Create(pf)
@@ -136,6 +138,22 @@ func tail(s []string, n int) []string {
 	return s
 }
 
+func tapeBytes(t []uint32) []byte {
+	b := make([]byte, 0, 4*len(t))
+	for _, v := range t {
+		b = append(b, byte(v), byte(v>>8), byte(v>>16), byte(v>>24))
+	}
+	return b
+}
+
+func schedBytes(s [][2]int64) []byte {
+	b := make([]byte, 0, 16*len(s))
+	for _, v := range s {
+		b = append(b, []byte(fmt.Sprintf("%d>%d;", v[0], v[1]))...)
+	}
+	return b
+}
+
 func cmdRun(args []string) {
 	fs := flag.NewFlagSet("run", flag.ExitOnError)
 	prop := fs.String("prop", "", "property id")
@@ -148,6 +166,7 @@ func cmdRun(args []string) {
 	hashOut := fs.String("hashes", "", "file receiving the distinct-case hashes (binary, 9 bytes per run)")
 	bbox := fs.String("blackbox", "", "shared file receiving the input of the operation in flight")
 	stall := fs.Duration("stall", 0, "end the process when a run makes no progress for this long")
+	allRecs := fs.Bool("all-records", false, "emit a (short) record for every run: determinism self-test")
 	fs.Parse(args)
 	p := getProp(*prop)
 	if *bbox != "" {
@@ -201,6 +220,13 @@ func cmdRun(args []string) {
 			}
 			rec.Sample = c.Trace
 			emitJSON(rec)
+		} else if *allRecs {
+			if os.Getenv("VERIF_DEBUG_TRACE") != "" {
+				fmt.Fprintf(os.Stderr, "TRACE %d: %s\n", k, strings.Join(c.Trace, " | "))
+			}
+			h := core.Hash64([]byte(strings.Join(c.Trace, "\n")))
+			emitJSON(map[string]any{"det": k, "mode": rec.Mode, "steps": rec.Steps, "switches": rec.Switches, "case": rec.CaseHash, "log": rec.LogHash,
+				"trace": fmt.Sprintf("%016x", h), "faults": rec.Faults, "probes": rec.Probes, "tape": core.Hash64(tapeBytes(c.Tape.Recorded())), "sched": core.Hash64(schedBytes(c.Schedule))})
 		} else if *samples > 0 && rec.Nontriv {
 			*samples--
 			rec.Sample = c.Trace
